@@ -67,7 +67,7 @@ def graphs_check():
     return n, None
 
 
-def search(D=5, ops_n=3, res_n=2):
+def search(D=5, ops_n=3, res_n=2, D2=6):
     known = known_classes()
     seen = {}
     n, bad = graphs_check()
@@ -80,91 +80,125 @@ def search(D=5, ops_n=3, res_n=2):
     res = [f"r{i}" for i in range(res_n)]
     actions = [("acq", o, r) for o in ops for r in res] + [("rel", o, r) for o in ops for r in res] + [("done", o, None) for o in ops] + \
               [("abort", o, None) for o in ops[:1]] + [("watchdog", None, None)]
-    for preempt in (False, True):
-        for seq in itertools.product(range(len(actions)), repeat=D):
-            n += 1
-            c = CellCycleController()
-            for r in res:
-                c.register_resource(ResourceLock(resource_id=r, allow_preemption=preempt))
-            ctx = {o: c.start_operation(o, "ag", priority=i) for i, o in enumerate(ops)}
-            live = set(ops)
-            blocked_on = set()
-            bad_cls = None
-            # cause tracking: which (waiter, blocker) edges were ever added, and which were dropped by remove_all_for_agent
-            g = c.dependency_graph
-            ever_added, dropped_by_remove_all = set(), set()
-            _add, _rm = g.add_dependency, g.remove_all_for_agent
+    def pruned_sequences(ops2, res2, depth):
+        """acquire/release histories without no-ops (re-acquiring an own lock, releasing what is not held), first action fixed by symmetry;
+        enumerated over a plain owner map, then run on the real controller"""
+        acts = [("acq", o, r) for o in ops2 for r in res2] + [("rel", o, r) for o in ops2 for r in res2]
+        idx = {a: actions2.index(a) for a in acts}
 
-            def add_dep(waiter, blocking, resource, _add=_add):
-                ever_added.add((waiter, blocking))
-                return _add(waiter, blocking, resource)
-
-            def rm_all(agent, _rm=_rm, g=g):
-                before = {(w, b) for w, deps in g.edges.items() for (b, r_) in deps}
-                _rm(agent)
-                after = {(w, b) for w, deps in g.edges.items() for (b, r_) in deps}
-                dropped_by_remove_all.update(before - after)
-            g.add_dependency, g.remove_all_for_agent = add_dep, rm_all
-            for ai in seq:
-                kind, o, r = actions[ai]
-                if o is not None and o not in live:
+        def rec(prefix, owner):
+            if len(prefix) == depth:
+                yield tuple(prefix)
+                return
+            for a in acts:
+                kind, o, r = a
+                if not prefix and a != ("acq", ops2[0], res2[0]):
                     continue
-                with contextlib.redirect_stdout(io.StringIO()):
-                    if kind == "acq":
-                        res_ = c.acquire_resource(ctx[o], r)
-                        if res_ == LockResult.BLOCKED:
-                            blocked_on.add((o, r))
-                        else:
-                            blocked_on.discard((o, r))
-                    elif kind == "rel":
-                        c.release_resource(ctx[o], r)
-                    elif kind == "done":
-                        c.complete_operation(ctx[o]); live.discard(o); blocked_on = {(w, x) for (w, x) in blocked_on if w != o}
-                    elif kind == "abort":
-                        c.abort_operation(ctx[o], "t"); live.discard(o); blocked_on = {(w, x) for (w, x) in blocked_on if w != o}
-                    else:
-                        info0 = c.check_deadlock()
-                        wd = Watchdog()
-                        ev = wd.execute(c)
-                        for e in ev:
-                            live.discard(e.operation_id)
-                            blocked_on = {(w, x) for (w, x) in blocked_on if w != e.operation_id}
-                            if any(l.owner == e.operation_id for l in c.resources.values()):
-                                bad_cls = ("victim-still-owns", f"victim {e.operation_id} still owns a resource")
-                        if info0 is not None and ev:
-                            members = [m for m in info0.agents if m in ctx]
-                            if members:
-                                lowest = min(members, key=lambda m: ctx[m].priority)
-                                if ev[0].operation_id != lowest and all(x.reason.name == "DEADLOCK" for x in ev[:1]):
-                                    bad_cls = ("victim-not-lowest-priority", f"victim {ev[0].operation_id}, lowest-priority member is {lowest}")
-                # compare the reported cycle with the reference wait-for relation
-                wf = {(w, c.resources[x].owner) for (w, x) in blocked_on if c.resources[x].owner is not None and w in live and c.resources[x].owner != w}
-                ref = has_cycle(wf)
-                info = c.check_deadlock()
-                if bad_cls is None:
-                    graph_edges = {(w, b) for w, deps in g.edges.items() for (b, r_) in deps}
-                    if ref is not None and info is None:
-                        cyc_edges = {(ref[i], ref[(i + 1) % len(ref)]) for i in range(len(ref))}
-                        missing = cyc_edges - graph_edges
-                        if missing and all(e in dropped_by_remove_all for e in missing):
-                            cause = "wait-edge-dropped-by-remove_all_for_agent"
-                        elif missing and all(e not in ever_added for e in missing):
-                            cause = "wait-edge-never-added"
-                        else:
-                            cause = "other"
-                        bad_cls = ("missed-cycle:" + cause, f"real wait-for cycle {ref} not reported (missing edges {sorted(missing)})")
-                    elif ref is None and info is not None:
-                        stale = {(info.agents[i], info.agents[(i + 1) % len(info.agents)]) for i in range(len(info.agents))} - wf
-                        bad_cls = ("phantom-cycle:stale-edge", f"reported cycle {info.agents} but the wait-for relation {sorted(wf)} has none (stale edges {sorted(stale)})")
-                    elif info is not None and not all(m in live for m in info.agents):
-                        bad_cls = ("dead-member", f"reported cycle {info.agents} contains an operation that is no longer live")
-                if bad_cls:
-                    desc = f"{bad_cls[0]}: {bad_cls[1]} after {[actions[i] for i in seq[:seq.index(ai) + 1]]} (preemption={preempt})"
-                    if bad_cls[0] in known or os.environ.get("C15_COLLECT_ALL"):
-                        seen.setdefault(bad_cls[0], desc)
-                        bad_cls = None
-                        break
-                    return n, desc, seen
+                if kind == "acq":
+                    if owner.get(r) == o:
+                        continue
+                    nxt = dict(owner)
+                    if owner.get(r) is None:
+                        nxt[r] = o
+                    yield from rec(prefix + [idx[a]], nxt)
+                else:
+                    if owner.get(r) != o:
+                        continue
+                    nxt = dict(owner)
+                    nxt[r] = None
+                    yield from rec(prefix + [idx[a]], nxt)
+        yield from rec([], {})
+
+    configs = [(ops, res, actions, (False, True), lambda: itertools.product(range(len(actions)), repeat=D))]
+    ops2, res2 = ["o0", "o1"], ["r0", "r1", "r2"]
+    actions2 = [("acq", o, r) for o in ops2 for r in res2] + [("rel", o, r) for o in ops2 for r in res2]
+    configs.append((ops2, res2, actions2, (False,), lambda: pruned_sequences(ops2, res2, D2)))
+    for ops, res, actions, preempts, seqs in configs:
+      for preempt in preempts:
+        for seq in seqs():
+              n += 1
+              c = CellCycleController()
+              for r in res:
+                  c.register_resource(ResourceLock(resource_id=r, allow_preemption=preempt))
+              ctx = {o: c.start_operation(o, "ag", priority=i) for i, o in enumerate(ops)}
+              live = set(ops)
+              blocked_on = set()
+              bad_cls = None
+              # cause tracking: which (waiter, blocker) edges were ever added, and which were dropped by remove_all_for_agent
+              g = c.dependency_graph
+              ever_added, dropped_by_remove_all = set(), set()
+              _add, _rm = g.add_dependency, g.remove_all_for_agent
+
+              def add_dep(waiter, blocking, resource, _add=_add):
+                  ever_added.add((waiter, blocking))
+                  return _add(waiter, blocking, resource)
+
+              def rm_all(agent, _rm=_rm, g=g):
+                  before = {(w, b) for w, deps in g.edges.items() for (b, r_) in deps}
+                  _rm(agent)
+                  after = {(w, b) for w, deps in g.edges.items() for (b, r_) in deps}
+                  dropped_by_remove_all.update(before - after)
+              g.add_dependency, g.remove_all_for_agent = add_dep, rm_all
+              for ai in seq:
+                  kind, o, r = actions[ai]
+                  if o is not None and o not in live:
+                      continue
+                  with contextlib.redirect_stdout(io.StringIO()):
+                      if kind == "acq":
+                          res_ = c.acquire_resource(ctx[o], r)
+                          if res_ == LockResult.BLOCKED:
+                              blocked_on.add((o, r))
+                          else:
+                              blocked_on.discard((o, r))
+                      elif kind == "rel":
+                          c.release_resource(ctx[o], r)
+                      elif kind == "done":
+                          c.complete_operation(ctx[o]); live.discard(o); blocked_on = {(w, x) for (w, x) in blocked_on if w != o}
+                      elif kind == "abort":
+                          c.abort_operation(ctx[o], "t"); live.discard(o); blocked_on = {(w, x) for (w, x) in blocked_on if w != o}
+                      else:
+                          info0 = c.check_deadlock()
+                          wd = Watchdog()
+                          ev = wd.execute(c)
+                          for e in ev:
+                              live.discard(e.operation_id)
+                              blocked_on = {(w, x) for (w, x) in blocked_on if w != e.operation_id}
+                              if any(l.owner == e.operation_id for l in c.resources.values()):
+                                  bad_cls = ("victim-still-owns", f"victim {e.operation_id} still owns a resource")
+                          if info0 is not None and ev:
+                              members = [m for m in info0.agents if m in ctx]
+                              if members:
+                                  lowest = min(members, key=lambda m: ctx[m].priority)
+                                  if ev[0].operation_id != lowest and all(x.reason.name == "DEADLOCK" for x in ev[:1]):
+                                      bad_cls = ("victim-not-lowest-priority", f"victim {ev[0].operation_id}, lowest-priority member is {lowest}")
+                  # compare the reported cycle with the reference wait-for relation
+                  wf = {(w, c.resources[x].owner) for (w, x) in blocked_on if c.resources[x].owner is not None and w in live and c.resources[x].owner != w}
+                  ref = has_cycle(wf)
+                  info = c.check_deadlock()
+                  if bad_cls is None:
+                      graph_edges = {(w, b) for w, deps in g.edges.items() for (b, r_) in deps}
+                      if ref is not None and info is None:
+                          cyc_edges = {(ref[i], ref[(i + 1) % len(ref)]) for i in range(len(ref))}
+                          missing = cyc_edges - graph_edges
+                          if missing and all(e in dropped_by_remove_all for e in missing):
+                              cause = "wait-edge-dropped-by-remove_all_for_agent"
+                          elif missing and all(e not in ever_added for e in missing):
+                              cause = "wait-edge-never-added"
+                          else:
+                              cause = "other"
+                          bad_cls = ("missed-cycle:" + cause, f"real wait-for cycle {ref} not reported (missing edges {sorted(missing)})")
+                      elif ref is None and info is not None:
+                          stale = {(info.agents[i], info.agents[(i + 1) % len(info.agents)]) for i in range(len(info.agents))} - wf
+                          bad_cls = ("phantom-cycle:stale-edge", f"reported cycle {info.agents} but the wait-for relation {sorted(wf)} has none (stale edges {sorted(stale)})")
+                      elif info is not None and not all(m in live for m in info.agents):
+                          bad_cls = ("dead-member", f"reported cycle {info.agents} contains an operation that is no longer live")
+                  if bad_cls:
+                      desc = f"{bad_cls[0]}: {bad_cls[1]} after {[actions[i] for i in seq[:seq.index(ai) + 1]]} (preemption={preempt})"
+                      if bad_cls[0] in known or os.environ.get("C15_COLLECT_ALL"):
+                          seen.setdefault(bad_cls[0], desc)
+                          bad_cls = None
+                          break
+                      return n, desc, seen
     return n, None, seen
 
 
